@@ -99,6 +99,20 @@ def roundtrip(ctx, entry, text, flags, tree, cls):
             continue
         if p1 != p1b:
             ctx.violation("print-nondeterministic", witness, "")
+        # the module-level function, after earlier calls with other options in this process
+        try:
+            from py_gql.lang import print_ast
+
+            if rng.random() < 0.5:
+                print_ast(tree, indent=indent, include_descriptions=False)
+                ctx.count("print_ast_calls_without_descriptions")
+            p1c = print_ast(tree, indent=indent, include_descriptions=True)
+            ctx.count("print_ast_calls")
+            if p1c != p1:
+                ctx.violation("print-nondeterministic:print_ast-differs-from-a-fresh-printer", witness,
+                              "print_ast(...) after other calls differs from ASTPrinter(...)(tree)")
+        except Exception as e:
+            ctx.violation("print-raises:%s" % type(e).__name__, witness, repr(e))
         try:
             t2 = entries[entry](p1, **pflags)
         except Exception as e:
